@@ -34,6 +34,10 @@ type parserCfg struct {
 	FaultAt    int    `json:",omitempty"`
 	FaultKind  int    `json:",omitempty"`
 	ByteReader bool   `json:",omitempty"` // the faulty top-level reader implements io.ByteReader
+
+	// GenBytes (optional): octets of text that the $GENERATE directives of the input expand to
+	// (steps x length of the template); they count as input for the allocation bound.
+	GenBytes int `json:",omitempty"`
 }
 
 // ---------------------------------------------------------------------------------------------
@@ -276,6 +280,7 @@ type outcome struct {
 	Alloc  uint64 // bytes allocated during the parse (runtime TotalAlloc delta)
 	Bound  uint64 // the allocation bound that applied
 	Depth  int    // deepest call stack (frames) seen from inside the readers handed to the parser
+	Stack  int64  // growth of the memory in use by goroutine stacks during the parse (runtime StackInuse delta)
 	Millis int64
 }
 
@@ -290,6 +295,8 @@ func watchdogFor(files map[string]string) time.Duration {
 	d := 20 * time.Second
 	for _, t := range files {
 		d += time.Duration(countGenerate(t))*2*time.Second + time.Duration(len(t)/65536)*2*time.Second
+		// and 1 s per MiB of text that the $GENERATE directives expand to
+		d += time.Duration(generateExpansion(t)>>20) * time.Second
 	}
 	if d > 300*time.Second {
 		d = 300 * time.Second
@@ -366,9 +373,170 @@ const (
 	allocRL = 32 // per record and octet of the longest line (observed: ~5 for $GENERATE lines)
 )
 
+// generateExpansion is an upper estimate of the number of octets that the $GENERATE directives
+// of one file expand to: steps x (length of the logical line + 24 per "$").
+func generateExpansion(raw string) int {
+	if !strings.Contains(normLex(raw), "$GENERATE") {
+		return 0
+	}
+	const limit = 1 << 40
+	up := asciiUpper(raw)
+	total, found := 0, false
+	for from := 0; from < len(up); {
+		g := strings.Index(up[from:], "$GENERATE")
+		if g < 0 {
+			break
+		}
+		from += g + len("$GENERATE")
+		found = true
+		rest := raw[from:]
+		steps := 65536
+		if f := strings.Fields(stripLex(rest[:min(len(rest), 100)])); len(f) > 0 {
+			if n, ok := rangeSteps(f[0]); ok {
+				steps = n
+			}
+		}
+		n := logicalLineLen(rest)
+		if total += steps * (n + 24*strings.Count(rest[:n], "$") + 1); total > limit {
+			return limit
+		}
+	}
+	if !found {
+		// the keyword is interleaved with parentheses or carriage returns
+		return min(limit, 65536*25*len(raw))
+	}
+	return total
+}
+
+// maxExpansion is a cost cap of the generators (not a class of inputs that misbehaves): a file
+// whose $GENERATE directives expand to more text than this (a full range in front of a template
+// that an open quote extends over the rest of a large file: gigabytes) takes minutes to read.
+const maxExpansion = 32 << 20
+
+// capExpansion rewrites the range of every $GENERATE whose expansion exceeds maxExpansion to 1-2.
+func capExpansion(raw string) string {
+	if generateExpansion(raw) <= maxExpansion {
+		return raw
+	}
+	up := asciiUpper(raw)
+	share := maxExpansion / max(1, strings.Count(up, "$GENERATE"))
+	var sb strings.Builder
+	last := 0
+	for from := 0; from < len(up); {
+		g := strings.Index(up[from:], "$GENERATE")
+		if g < 0 {
+			break
+		}
+		from += g + len("$GENERATE")
+		rest := raw[from:]
+		i := 0
+		for i < len(rest) && (rest[i] == ' ' || rest[i] == '\t') {
+			i++
+		}
+		j := i
+		for j < len(rest) && rest[j] != ' ' && rest[j] != '\t' && rest[j] != '\n' {
+			j++
+		}
+		steps := 65536
+		if n, ok := rangeSteps(stripLex(rest[i:j])); ok {
+			steps = n
+		}
+		if n := logicalLineLen(rest); steps*(n+24*strings.Count(rest[:n], "$")+1) > share && j > i {
+			sb.WriteString(raw[last : from+i])
+			sb.WriteString("1-2")
+			last = from + j
+		}
+	}
+	sb.WriteString(raw[last:])
+	return sb.String()
+}
+
+// rangeSteps: the number of steps of a well-formed range start-stop[/step] (the conditions of the
+// $GENERATE syntax: decimal numbers, 0 <= start <= stop, step > 0, at most 65536 steps).
+func rangeSteps(tok string) (int, bool) {
+	var st int64 = 1
+	rng, step, hasStep := strings.Cut(tok, "/")
+	lo, hi, ok := strings.Cut(rng, "-")
+	a, e1 := strconv.ParseInt(lo, 10, 64)
+	b, e2 := strconv.ParseInt(hi, 10, 64)
+	var e3 error
+	if hasStep {
+		st, e3 = strconv.ParseInt(step, 10, 64)
+	}
+	if ok && e1 == nil && e2 == nil && e3 == nil && st > 0 && a >= 0 && b >= a && (b-a)/st < 65536 {
+		return int((b-a)/st) + 1, true
+	}
+	return 0, false
+}
+
+// logicalLineLen: the length of the logical line that s starts with, including its line end: a
+// line end inside quotes, inside parentheses or behind a backslash does not end it.
+func logicalLineLen(s string) int {
+	esc, quote, comment := false, false, false
+	depth := 0
+	for i := 0; i < len(s); i++ {
+		c := s[i]
+		if comment {
+			if c == '\n' {
+				if comment = false; depth <= 0 {
+					return i + 1
+				}
+			}
+			continue
+		}
+		if esc {
+			esc = false
+			continue
+		}
+		switch c {
+		case '\\':
+			esc = true
+		case '"':
+			quote = !quote
+		case ';':
+			comment = !quote
+		case '(':
+			if !quote {
+				depth++
+			}
+		case ')':
+			if !quote {
+				depth--
+			}
+		case '\n':
+			if !quote && depth <= 0 {
+				return i + 1
+			}
+		}
+	}
+	return len(s)
+}
+
+// stackBound: a parse needs a few KiB of stack (the depth limit above: 100 frames); the stacks of
+// the other goroutines of the test process do not move. 1 MiB is reached by about 4000 frames.
+const stackBound = 1 << 20
+
 // runParser feeds files[cfg.File] to a ZoneParser under cfg and applies the safety oracle of
 // DESIGN C07. The returned error is a violation; the outcome is valid either way.
 func runParser(files map[string]string, cfg parserCfg, perRecord func(dns.RR)) (*outcome, error) {
+	out, viol, resource := runParserOnce(files, cfg, perRecord)
+	// The allocation counter and the stack gauge are those of the whole process: a reading above
+	// its bound is confirmed by repeating the same parse (fresh parser, same inputs) after a
+	// garbage collection; what the input costs is a function of the input and shows every time,
+	// what something else in the process did meanwhile does not.
+	for i := 0; i < confirmRuns && viol != nil && resource; i++ {
+		runtime.GC()
+		out, viol, resource = runParserOnce(files, cfg, perRecord)
+	}
+	return out, viol
+}
+
+// confirmRuns: how often a resource reading above its bound is measured again.
+const confirmRuns = 3
+
+// runParserOnce is one parse under the oracle; resource tells that the violation is a reading of
+// a process-wide gauge (allocation, stack growth) above its bound.
+func runParserOnce(files map[string]string, cfg parserCfg, perRecord func(dns.RR)) (*outcome, error, bool) {
 	top := files[cfg.File]
 	m := fstest.MapFS{}
 	for name, txt := range files {
@@ -395,6 +563,8 @@ func runParser(files map[string]string, cfg parserCfg, perRecord func(dns.RR)) (
 		viol error
 	}
 	done := make(chan result, 1)
+	wd := watchdogFor(files) // before the parse starts: it scans (and copies) every file
+	timer := time.NewTimer(wd)
 	go func() {
 		out := &outcome{}
 		var viol error
@@ -456,9 +626,6 @@ func runParser(files map[string]string, cfg parserCfg, perRecord func(dns.RR)) (
 			out.N++
 			if len(out.First) < keepRecords {
 				out.First = append(out.First, rr)
-				if perRecord != nil {
-					perRecord(rr)
-				}
 			}
 			if out.N%4096 == 0 || out.N < 64 {
 				if c := capRecords(); out.N > c {
@@ -469,12 +636,23 @@ func runParser(files map[string]string, cfg parserCfg, perRecord func(dns.RR)) (
 		}
 		runtime.ReadMemStats(&ms2)
 		out.Alloc = ms2.TotalAlloc - ms1.TotalAlloc
+		// the parse runs on this goroutine; a stack only shrinks during a garbage collection (by
+		// half each time), so at this point it still has (nearly) the size of its deepest moment
+		out.Stack = int64(ms2.StackInuse) - int64(ms1.StackInuse)
 		out.Millis = time.Since(start).Milliseconds()
 		out.Err = zp.Err()
 		out.Opens = spy.Opens()
 		out.Depth = dp.max
 		if viol != nil {
 			return
+		}
+		// the consumers of the records run outside the measured window: what String, PackRR and
+		// Copy allocate is not what reading the zone allocates (HIP.String, for one, is quadratic
+		// in the number of rendezvous servers)
+		if perRecord != nil {
+			for _, rr := range out.First {
+				perRecord(rr)
+			}
 		}
 		if c := capRecords(); out.N > c {
 			viol = fmt.Errorf("%d records returned, more than %d (lines + 65536 per $GENERATE line, over all files read)", out.N, c)
@@ -495,30 +673,41 @@ func runParser(files map[string]string, cfg parserCfg, perRecord func(dns.RR)) (
 		}
 	}()
 
+	// (nothing that allocates may run on this goroutine between the start of the parse and its
+	// end: the allocation counter read inside the parse goroutine is that of the whole process)
 	var res result
-	wd := watchdogFor(files)
 	select {
 	case res = <-done:
-	case <-time.After(wd):
-		hangSeen = true
-		buf := make([]byte, 1<<20)
-		buf = buf[:runtime.Stack(buf, true)]
-		if strings.Contains(string(buf), "miekg/dns") {
-			return &outcome{}, fmt.Errorf("parse did not finish within %v (input %d octets); goroutines:\n%s", wd, len(top), buf)
+	case <-timer.C:
+		// a parse that is merely slow (loaded machine) ends when it is given more time, a hang
+		// does not: the same parse gets three more periods before it is called a hang
+		timer.Reset(time.Duration(confirmRuns) * wd)
+		select {
+		case res = <-done:
+		case <-timer.C:
+			hangSeen = true
+			buf := make([]byte, 1<<20)
+			buf = buf[:runtime.Stack(buf, true)]
+			if strings.Contains(string(buf), "miekg/dns") {
+				return &outcome{}, fmt.Errorf("parse did not finish within %v (input %d octets); goroutines:\n%s", time.Duration(confirmRuns+1)*wd, len(top), buf), false
+			}
+			return &outcome{}, fmt.Errorf("harness: watchdog fired but no goroutine is inside the library"), false
 		}
-		return &outcome{}, fmt.Errorf("harness: watchdog fired but no goroutine is inside the library")
 	}
+	timer.Stop()
 	out := res.out
 	if res.viol != nil {
-		return out, res.viol
+		return out, res.viol, false
 	}
 
 	// allocation bound
-	bytesRead := len(top)
+	// (the text that the $GENERATE directives of the files expand to counts as input: an
+	// expansion need not end in records - its lines can be blank, or merge into one quoted string)
+	bytesRead := len(top) + max(cfg.GenBytes, generateExpansion(top))
 	longest := maxLineLen(top)
 	for _, o := range out.Opens {
 		if f, ok := files[o]; ok {
-			bytesRead += len(f)
+			bytesRead += len(f) + generateExpansion(f)
 			if l := maxLineLen(f); l > longest {
 				longest = l
 			}
@@ -530,20 +719,28 @@ func runParser(files map[string]string, cfg parserCfg, perRecord func(dns.RR)) (
 		fmt.Fprintf(os.Stderr, "ALLOC bytes=%d recs=%d longest=%d alloc=%d perbyte=%.1f\n", bytesRead, out.N, longest, out.Alloc, float64(out.Alloc)/float64(bytesRead+1))
 	}
 	if out.Alloc > bound {
-		return out, fmt.Errorf("allocated %d octets for %d octets of input and %d records (bound %d)", out.Alloc, bytesRead, out.N, bound)
+		return out, fmt.Errorf("allocated %d octets for %d octets of input and %d records (bound %d; measured %d times)", out.Alloc, bytesRead, out.N, bound, confirmRuns+1), true
 	}
 
+	// stack memory: recursion per octet / token / line of input that happens below the library's
+	// own readers (where the depth probe does not reach) shows as growth of the goroutine's stack
+	if os.Getenv("C07_DEBUG_ALLOC") != "" {
+		fmt.Fprintf(os.Stderr, "STACK bytes=%d stack=%d\n", bytesRead, out.Stack)
+	}
+	if out.Stack > stackBound {
+		return out, fmt.Errorf("the goroutine stacks grew by %d octets while %d octets of input were parsed (bound %d): the parser recurses with its input, which ends in a fatal stack overflow (not recoverable) once the input is large enough", out.Stack, bytesRead, stackBound), true
+	}
 	// call depth: no recursion per line of input
 	if limit := depthLimit(files, out.Opens, cfg.File); out.Depth > limit {
-		return out, fmt.Errorf("the parser read its input %d calls deep (limit %d): the call stack grows with the number of input lines", out.Depth, limit)
+		return out, fmt.Errorf("the parser read its input %d calls deep (limit %d): the call stack grows with the number of input lines", out.Depth, limit), false
 	}
 	// include nesting is bounded
 	if len(out.Opens) > maxOpens {
-		return out, fmt.Errorf("%d Open calls; with the nesting limit at most %d are possible for these files", len(out.Opens), maxOpens)
+		return out, fmt.Errorf("%d Open calls; with the nesting limit at most %d are possible for these files", len(out.Opens), maxOpens), false
 	}
 	// include gate
 	if !cfg.Allowed && len(out.Opens) > 0 {
-		return out, fmt.Errorf("includes are not allowed but the include FS was opened: %q", out.Opens)
+		return out, fmt.Errorf("includes are not allowed but the include FS was opened: %q", out.Opens), false
 	}
 
 	// shape of the error
@@ -551,23 +748,23 @@ func runParser(files map[string]string, cfg parserCfg, perRecord func(dns.RR)) (
 		var pe *dns.ParseError
 		if injected != nil && (out.Err == injected || errors.Is(out.Err, injected)) {
 			// the injected reader failure, reported as it is
-			return out, nil
+			return out, nil, false
 		}
 		if !errors.As(out.Err, &pe) {
 			// a failure of the reader itself (for instance $INCLUDE of a directory of the
 			// include FS) is reported as it is; everything else must be a *dns.ParseError
 			var perr *fs.PathError
 			if errors.As(out.Err, &perr) && len(out.Opens) > 0 {
-				return out, nil
+				return out, nil, false
 			}
-			return out, fmt.Errorf("Err() is a %T, not a *dns.ParseError: %v", out.Err, out.Err)
+			return out, fmt.Errorf("Err() is a %T, not a *dns.ParseError: %v", out.Err, out.Err), false
 		}
 		txt := out.Err.Error()
 		if strings.Contains(txt, "dns: bad initial origin name") {
 			// the constructor's error about the origin it was given carries no position; it
 			// also comes from the sub-parser of a $INCLUDE / $GENERATE when the current origin
 			// has grown beyond 255 octets through relative $ORIGIN directives (see the report)
-			return out, nil
+			return out, nil, false
 		}
 		file := ""
 		if strings.HasPrefix(txt, cfg.File+": dns: ") {
@@ -580,24 +777,25 @@ func runParser(files map[string]string, cfg parserCfg, perRecord func(dns.RR)) (
 			}
 		}
 		if file == "" {
-			return out, fmt.Errorf("error text does not start with the name of a file that was read (%q, %q): %q", cfg.File, out.Opens, txt)
+			return out, fmt.Errorf("error text does not start with the name of a file that was read (%q, %q): %q", cfg.File, out.Opens, txt), false
 		}
 		mm := lineRe.FindStringSubmatch(txt)
 		if mm == nil {
-			return out, fmt.Errorf("error text carries no position: %q", txt)
+			return out, fmt.Errorf("error text carries no position: %q", txt), false
 		}
 		line, _ := strconv.Atoi(mm[1])
 		ftxt := files[file]
 		maxLine := countLines(ftxt) + 1
 		if countGenerate(ftxt) > 0 {
-			// positions inside the expansion of a $GENERATE count generated lines
-			maxLine += 65536
+			// positions inside the expansion of a $GENERATE count generated lines; a template can
+			// hold line ends of its own (inside quotes), at most those of the whole file per step
+			maxLine += 65536 * countLines(ftxt)
 		}
 		if line < 1 || line > maxLine {
-			return out, fmt.Errorf("error position line %d is outside the file %q (%d lines): %q", line, file, countLines(ftxt), txt)
+			return out, fmt.Errorf("error position line %d is outside the file %q (%d lines): %q", line, file, countLines(ftxt), txt), false
 		}
 	}
-	return out, nil
+	return out, nil, false
 }
 
 // allocClass buckets the share of the allocation bound that was used (histogram only).
